@@ -52,6 +52,8 @@ TABLE = [
     ("located by the NFA from the search start", "C02", "`(?s:.)(?s:.)*` on 150 bytes: FindIndex [50 150] (length ladder / pumped inputs)"),
     ("lazy class repetition is not handled by the greedy", "C02 C04", "`[ab]+?` on \"ab\": FindAll [0 2] (family G1)"),
     ("anchored-literal matcher respects newlines", "C01 C02", "`^/.*\\.php$` matched \"/a\\nb.php\"; (?m) anchors compared against the whole input"),
+    ("4-byte UTF-8 ranges are compiled exactly", "C15", "`[\\x{10005}-\\x{FEE20}]` accepted U+10004 (unaligned range descriptors of MC_UTF8)"),
+    ("copy-on-write reference before the sibling branch", "C07 C03", "`(?:([ab])-){1,2}(b)` on \"a-b\": group 1 = [2 1], ReplaceAll panicked (named / repeated group shapes of the CAP family)"),
     ("only accepts branches it can match exactly", "C19 C02", "`^([à-ÿ]+|x\\d)` on \"x1\" = [0 1]; `^(foo|bar|baz)` matched \"bax\""),
 ]
 
